@@ -32,7 +32,7 @@ type profile struct {
 var allKinds = []string{"alpha", "unsigned", "signed", "float", "collation", "compound"}
 
 func profileFor(prop string) profile {
-	p := profile{kinds: allKinds, minTrees: 1, maxTrees: 2, envRate: 30, absentPct: 40, overwrite: 15, longTail: 12, valSwarm: true}
+	p := profile{kinds: allKinds, minTrees: 1, maxTrees: 2, envRate: 30, absentPct: 40, overwrite: 15, longTail: 12, valSwarm: true, layouts: true}
 	switch prop {
 	case "C01":
 		p.w = opWeights{ins: 45, del: 20, get: 35}
@@ -70,6 +70,7 @@ func profileFor(prop string) profile {
 		p.scribble = true
 	case "C14":
 		p.w = opWeights{ins: 40, del: 12, all: 8, back: 8, topk: 8, botk: 8, rng: 8, prefix: 8}
+		p.layouts = false // buffer reuse between passes is C13's subject, not C14's
 	case "C15":
 		p.w = opWeights{ins: 35, del: 25, get: 12, min: 3, max: 3, size: 2, all: 4, back: 3, topk: 3, botk: 3, rng: 4, prefix: 3}
 		p.absentPct = 60
@@ -291,7 +292,46 @@ func (g *genTree) derive(r *RNG) []byte {
 	return k
 }
 
+// fanLetters: single letters with pairwise different primary weights, many of
+// them per script, so that one node of a collation tree gets a wide fan-out.
+var fanLetters = func() []string {
+	var out []string
+	for c := 'a'; c <= 'z'; c++ {
+		out = append(out, string(c))
+	}
+	for c := 'α'; c <= 'ω'; c++ {
+		if c != 'ς' {
+			out = append(out, string(c))
+		}
+	}
+	for c := 'а'; c <= 'я'; c++ {
+		if c != 'й' && c != 'ъ' && c != 'ь' {
+			out = append(out, string(c))
+		}
+	}
+	for c := 'ぁ'; c <= 'ん'; c += 2 {
+		out = append(out, string(c))
+	}
+	return out
+}()
+
 func (g *genTree) newCollKey(r *RNG) []byte {
+	if r.Chance(1, 3) && len(g.collPfx) > 0 {
+		// fan: one shared prefix, one letter out of many, optional short tail
+		s := clone(g.collPfx[0])
+		var l string
+		if r.Chance(2, 3) {
+			l = fanLetters[g.fanNext%len(fanLetters)]
+			g.fanNext++
+		} else {
+			l = pick(r, fanLetters)
+		}
+		s = append(s, l...)
+		if r.Chance(1, 4) {
+			s = append(s, pick(r, collAtoms)...)
+		}
+		return s
+	}
 	var s []byte
 	if r.Chance(3, 4) && len(g.collPfx) > 0 {
 		s = clone(pick(r, g.collPfx))
@@ -707,7 +747,7 @@ func genTrace(prop string, seed uint64, run int, o genOpts) *Trace {
 		if !p.layouts || !g.kt.IsBytesKey() {
 			return layExact, 0
 		}
-		return r.Weighted([]int{25, 45, 30}), r.Range(1, 9)
+		return r.Weighted([]int{25, 45, 30}), r.Range(1, 9) | r.Intn(3)<<4
 	}
 
 	// sweep phase (1 run in 25): one node climbs through every size class to all
